@@ -9,5 +9,6 @@ cd /verif
 timeout 1800 ./bin/gosmt check "$prop" --tier "$tier" > /tmp/try_mut.log 2>&1
 rc=$?
 git -C /repo checkout -- .
+git -C /verif checkout -- evidence 2>/dev/null
 grep -E "^VIOLATION|^KNOWN|^INCONCLUSIVE|^OK|harness=" /tmp/try_mut.log | head -8
 echo "exit=$rc"
